@@ -403,7 +403,8 @@ func genC02(t *rapid.T) c02Case {
 					prefix = p[:rapid.IntRange(1, len(p)-1).Draw(t, "cut")]
 				}
 			case 2: // a separator in front of or inside the "prefix" the checksum was computed for
-				prefix = rapid.SampledFrom([]string{":", ":abc", "a:b", "::", genKnownPrefix(t) + ":", ":" + genKnownPrefix(t)}).Draw(t, "colonprefix")
+				prefix = rapid.SampledFrom([]string{":", ":abc", "a:b", "::", genKnownPrefix(t) + ":", ":" + genKnownPrefix(t),
+					genKnownPrefix(t) + ":foo", genKnownPrefix(t) + ":" + genKnownPrefix(t), genKnownPrefix(t) + ":q"}).Draw(t, "colonprefix")
 				body := refCashEncodeSymbols(prefix, genCashSymbols(t))
 				s := prefix + ":" + body
 				if rapid.Bool().Draw(t, "dropfirst") {
